@@ -28,7 +28,7 @@ def run(chk):
                     prov = rc.PROVIDERS[k % 3]
                     k += 1
                     cases.append(rc.graph_case(3, edges, prov, k % 4 != 0, fail=(ff, ph), history="c18"))
-    n = 1200 if chk.thorough else 220
+    n = 1200 if chk.thorough else 140
     for i in range(n):
         r = chk.rng.split(i)
         cases.append(rc.gen_case(r, fail="one" if i % 2 else "random"))
